@@ -91,6 +91,13 @@ def run(ctx):
         keyed = [ctx.leaves(call_expr(f, b)) for b in hi]
         ok = any(has_leaf(k, "call:*ExtendedHeader::hash") and has_leaf(k, "call:*ExtendedHeader::height") for k in keyed)
         ctx.check(ok, "C21.mem.index-pair", f.path, "height_to_hash written with height() and hash() of the same header", key="C21.mem.index-pair")
+    if f:
+        # a hash that repeats INSIDE the inserted span would overwrite its first header in `headers` while both
+        # heights point at it: some per-header guard must depend on a collection of the hashes seen in this batch
+        # (the result of an insert into a set / map keyed by header.hash(), or an entry test)
+        from engine.rules import per_iteration
+        per_iteration(ctx, f, ["headers"], Has(["call:*HashSet*::insert", "call:*BTreeSet*::insert", "call:*HashMap*::insert", "call:*BTreeMap*::insert", "call:*::entry", "call:*HashSet*::contains"], "call:*ExtendedHeader::hash",
+                                               name="a hash repeated inside the inserted span is rejected"), "C21.mem.batch-duplicate", "every header of the span is tested against the hashes already seen in the span", must_dominate=False)
     nb = ctx.anchor(IM + "InMemoryStoreInner::verify_against_neighbours")
     if nb:
         neighbour_rules(ctx, nb, "mem", "a1")
